@@ -751,6 +751,30 @@ ENTRIES += [
     M("R4-command-axes-ranges-crossed", "C20", "C20.2", ("lerax/env/unitree/g1/locomotion.py", "            self.lin_vel_y_range,\n            self.ang_vel_yaw_range,\n        )", "            self.ang_vel_yaw_range,\n            self.lin_vel_y_range,\n        )"), base="C20-ref12"),
 ]
 
+BM = "lerax/benchmark/__init__.py"
+BCC = "lerax/env/classic_control/base_classic_control.py"
+WTR = "lerax/wrapper/transform_reward.py"
+BB = "lerax/buffer/base_buffer.py"
+ENTRIES += [
+    # ---------------------------------------------------------------- rules prompted by the eighth seeding round, with passing twins
+    M("S8-eval-cap-truthiness", ["C19", "C12"], ["C19.5", "C12.2"], (BM, "        if max_steps is None:\n            return rollout_while(", "        if not max_steps:\n            return rollout_while(")),
+    V("S8-v-eval-cap-branches-swapped", ["C19", "C12"], (BM, "        if max_steps is None:\n            return rollout_while(env, policy, key=key, deterministic=deterministic)\n        else:\n            return rollout_scan(\n                env, policy, key=key, deterministic=deterministic, max_steps=max_steps\n            )",
+      "        if max_steps is not None:\n            return rollout_scan(\n                env, policy, key=key, deterministic=deterministic, max_steps=max_steps\n            )\n        return rollout_while(env, policy, key=key, deterministic=deterministic)")),
+    M("S8-iteration-context-count-before-increment", "C19", "C19.8", (ONP, "                    state.iteration_count,\n                    state.opt_state,\n                    log,", "                    state.iteration_count - 1,\n                    state.opt_state,\n                    log,")),
+    M("S8-reinforce-post-collect-zero-bootstrap", "C03", "C03.6", (RF, "    def per_step(", "    def post_collect(self, env, policy, step_state, buffer, *, key):\n        return buffer.compute_returns_and_advantages(0.0, self.gae_lambda, self.gamma)\n\n    def per_step(")),
+    V("S8-v-reinforce-post-collect-own-copy", "C03", (RF, "    def per_step(", "    def post_collect(self, env, policy, step_state, buffer, *, key):\n        last_obs = env.observation(step_state.env_state, key=key)\n        bootstrap = policy.value(step_state.policy_state, last_obs)[1]\n        return buffer.compute_returns_and_advantages(bootstrap, self.gae_lambda, self.gamma)\n\n    def per_step(")),
+    M("S8-estimator-rebuild-forgets-masks", ["C03", "C04"], ["C03.4", "C04.13"], (RB, "        return eqx.tree_at(\n            lambda x: (x.returns, x.advantages), self, (returns, advantages)\n        )", "        return type(self)(\n            observations=self.observations,\n            actions=self.actions,\n            rewards=self.rewards,\n            dones=self.dones,\n            log_probs=self.log_probs,\n            values=self.values,\n            states=self.states,\n            returns=returns,\n            advantages=advantages,\n        )")),
+    V("S8-v-estimator-rebuild-complete", ["C03", "C04", "C08", "C09"], (RB, "        return eqx.tree_at(\n            lambda x: (x.returns, x.advantages), self, (returns, advantages)\n        )", "        return type(self)(\n            observations=self.observations,\n            actions=self.actions,\n            rewards=self.rewards,\n            dones=self.dones,\n            log_probs=self.log_probs,\n            values=self.values,\n            states=self.states,\n            returns=returns,\n            advantages=advantages,\n            action_masks=self.action_masks,\n        )")),
+    M("S8-dqn-iteration-through-train-hook", "C07", "C07.4", (DQN, "        policy, opt_state, log = self.dqn_train(\n            state.policy,\n            state.opt_state,\n            step_state.buffer,\n            state.target_policy,  # type: ignore[attr-defined]\n            key=train_key,\n        )", "        policy, opt_state, log = self.train(\n            state.policy, state.opt_state, step_state.buffer, key=train_key\n        )")),
+    M("S8-clip-reward-falsy-bounds", ["C01", "C13", "C02"], ["C01.9", "C13.5", "C02.5"], (WTR, "        self.min = jnp.asarray(min)\n        self.max = jnp.asarray(max)", "        self.min = jnp.asarray(min or -jnp.inf)\n        self.max = jnp.asarray(max or jnp.inf)")),
+    V("S8-v-clip-reward-float-bounds", ["C01", "C13", "C02"], (WTR, "        self.min = jnp.asarray(min)\n        self.max = jnp.asarray(max)", "        self.min = jnp.asarray(min, dtype=float)\n        self.max = jnp.asarray(max, dtype=float)")),
+    M("S8-gym-reset-seed-truthiness", ["C12", "C13", "C07"], ["C12.7", "C13.7", "C07.9"], (GY, "        if seed is not None:\n            self.key = jr.key(int(seed))", "        if seed:\n            self.key = jr.key(int(seed))")),
+    M("S8-solver-step-limit", ["C02", "C17"], ["C02.8", "C17.17"], (BCC, "            saveat=saveat,\n            stepsize_controller=self.stepsize_controller,\n        )", "            saveat=saveat,\n            stepsize_controller=self.stepsize_controller,\n            max_steps=16,\n        )")),
+    M("S8-flatten-skips-by-dtype", ["C09", "C06", "C12"], ["C09.3", "C06.4", "C12.6"], (BB, "            if not isinstance(x, jnp.ndarray):\n                return x\n\n            if x.ndim <= max_axis:", "            if not isinstance(x, jnp.ndarray) or x.dtype == jnp.uint8:\n                return x\n\n            if x.ndim <= max_axis:")),
+    V("S8-v-flatten-guards-merged", ["C09", "C06", "C12"], (BB, "            if not isinstance(x, jnp.ndarray):\n                return x\n\n            if x.ndim <= max_axis:\n                return x", "            if not isinstance(x, jnp.ndarray) or x.ndim <= max_axis:\n                return x")),
+    M("S8-offpolicy-restart-second-terminal-draw", "C05", "C05.3", (OFP, "        next_env_state = lax.cond(\n            done, lambda: env.initial(key=env_reset_key), lambda: next_env_state\n        )", "        next_env_state = lax.cond(\n            env.terminal(next_env_state, key=env_reset_key) | truncation,\n            lambda: env.initial(key=env_reset_key),\n            lambda: next_env_state,\n        )")),
+]
+
 ENTRIES += [
     # ---------------------------------------------------------------- later additions
     M("C15-sac-bounds-swapped", "C15", "C15.3", (PS, "                high=self.action_space.high,\n                low=self.action_space.low,\n            )\n        else:", "                high=self.action_space.low,\n                low=self.action_space.high,\n            )\n        else:")),
